@@ -238,7 +238,8 @@ fn run_surface(surface: &str, input: &[u8], ends: &[usize]) -> Res {
                         let n = s.write(rest).unwrap();
                         rest = &rest[n.min(rest.len())..];
                         guard += 1;
-                        if guard > 10_000 {
+                        // (a legal short count may be as small as one byte per call)
+                        if guard > 2 * c.len() + 64 {
                             std::panic::panic_any(crate::simw::StepBudgetExceeded);
                         }
                     }
